@@ -52,14 +52,18 @@ def serialise(m):
 
 
 class _Fut:
-    def __init__(self, log):
+    def __init__(self, log, abandoned=False):
         self.log = log
-        self._done = False
+        self._done = abandoned          # the caller gave up (cancelled / timed out) while the request was queued: as asyncio's future, done already
+        self.abandoned = abandoned
 
     def done(self):
         return self._done
 
     def set_result(self, resp):
+        if self._done:
+            import asyncio
+            raise asyncio.InvalidStateError("invalid state")
         self._done = True
         self.log.append(("HTTP", resp))
 
@@ -68,15 +72,24 @@ class _Fut:
         self.log.append(("EXC", exc))
 
 
+class _Owner:
+    """Stands where the pairing stands: takes the parsed events the connection hands on."""
+
+    def event_received(self, parsed):
+        pass
+
+
 class _Conn(HomeKitConnection):
     """The real connection object (so that anything the protocol reads from it exists) with the two callbacks recorded."""
 
     def __init__(self, log):
-        super().__init__(None, ["10.0.0.1"], 51826)
+        super().__init__(_Owner(), ["10.0.0.1"], 51826)
         self.log = log
 
     def event_received(self, ev):
         self.log.append(("EVENT", ev))
+        # then what the connection itself does with an event (decode, parse, hand on): whatever the body is, the feeding loop goes on
+        super().event_received(ev)
 
     def _connection_lost(self, exc):
         pass
@@ -106,7 +119,7 @@ class _SinkTransport:
         return 0
 
 
-async def feed(stream, cuts, n_http, sends=()):
+async def feed(stream, cuts, n_http, sends=(), abandoned=()):
     """sends: indices into the read sequence after which the application issues a request of its own (a message that is half received at
     that moment must still be completed by the bytes that follow)."""
     import asyncio
@@ -115,7 +128,7 @@ async def feed(stream, cuts, n_http, sends=()):
     p.transport = _SinkTransport()
     # two spare waiters reveal a response that is delivered twice; with sends of our own there are none, so that the protocol
     # really has nothing outstanding when only EVENT messages are left
-    p.result_cbs = [_Fut(log) for _ in range(n_http + (0 if sends else 2))]
+    p.result_cbs = [_Fut(log, abandoned=i in abandoned) for i in range(n_http + (0 if sends else 2))]
     pos = 0
     tasks = []
     for i, c in enumerate(list(cuts) + [len(stream)]):
@@ -139,6 +152,19 @@ def run_case(case, R):
     stream = b"".join(p[0] for p in parts)
     expected = [p[1] for p in parts]
     n_http = sum(1 for m in msgs if m["kind"] == "HTTP")
+    abandoned = {int(a) % n_http for a in case.get("abandoned", ())} if n_http else set()
+    if abandoned:
+        # responses to requests whose callers have gone are consumed and dropped; everything else is delivered as before
+        R.cls("abandoned-waiters")
+        k_ = -1
+        keep = []
+        for m_, e_ in zip(msgs, expected):
+            if m_["kind"] == "HTTP":
+                k_ += 1
+                if k_ in abandoned:
+                    continue
+            keep.append(e_)
+        expected = keep
     marks = set()
     base = 0
     for raw, _, mk in parts:
@@ -163,7 +189,7 @@ def run_case(case, R):
     async def go():
         for cs in cutsets:
             try:
-                got, unresolved = await feed(stream, cs, n_http, case.get("sends", ()))
+                got, unresolved = await feed(stream, cs, n_http, case.get("sends", ()), abandoned)
             except Exception as e:  # noqa: BLE001
                 R.fail("C07.parser-raises", f"cuts {cs[:6]} of {stream[:300]!r}: {type(e).__name__}: {e}", exc=type(e).__name__)
                 return
@@ -201,9 +227,9 @@ def message(draw, small=False):
         headers.append([name, value, pl, pr])
     mode = draw(st.sampled_from(["cl", "cl", "chunked", "chunked", "none"]))
     if small:
-        body = draw(st.binary(max_size=10))
+        body = draw(st.one_of(st.binary(max_size=10), st.sampled_from([b"ping", b"{x", b"{}"])))
     else:
-        body = draw(st.one_of(st.binary(max_size=40), st.sampled_from([b"", b"0\r\n", b"\r\n", b"0\r\n\r\n", b"a\r\nb", b"5\r\nhello\r\n"]),
+        body = draw(st.one_of(st.binary(max_size=40), st.sampled_from([b"", b"0\r\n", b"\r\n", b"0\r\n\r\n", b"a\r\nb", b"5\r\nhello\r\n", b"ping", b"{not json", b'{"characteristics":[]}', b"[1,", b"nul\x00l"]),
                               st.integers(0, 3000).map(lambda n: bytes((i * 31 + n) & 0xFF for i in range(n)))))
     m = {"kind": kind, "code": code, "reason": reason, "headers": headers, "mode": mode, "body": body,
          "lenpos": draw(st.integers(0, 6)),
@@ -225,7 +251,8 @@ def random_cut_cases(draw):
     else:
         cuts = draw(st.lists(st.integers(1, 20000), min_size=0, max_size=12))
     sends = draw(st.lists(st.integers(0, 12), max_size=3)) if draw(st.integers(0, 2)) == 0 else []
-    return {"msgs": msgs, "cuts": cuts, "sends": sends}
+    abandoned = draw(st.lists(st.integers(0, 4), max_size=2)) if draw(st.integers(0, 3)) == 0 else []
+    return {"msgs": msgs, "cuts": cuts, "sends": sends, "abandoned": abandoned}
 
 
 @st.composite
@@ -240,7 +267,8 @@ def all_cut_cases(draw, which):
     else:
         msgs = draw(st.lists(message(small=True), min_size=1, max_size=2))
     # in a third of the cases the application sends a request right after the first read
-    return {"msgs": msgs, "cuts": which, "sends": [0] if draw(st.integers(0, 2)) == 0 else []}
+    return {"msgs": msgs, "cuts": which, "sends": [0] if draw(st.integers(0, 2)) == 0 else [],
+            "abandoned": draw(st.lists(st.integers(0, 2), min_size=1, max_size=2)) if draw(st.integers(0, 3)) == 0 else []}
 
 
 def run_secure(case, R):
